@@ -336,13 +336,21 @@ impl Monitor for C14 {
                     if post_o.v.last_major_swap_timestamp != now {
                         out.push(viol("major_swap_not_recorded", ev.idx, format!("price moved {} -> {} (threshold {} ticks) but the major-swap timestamp is {} (now {})", o.pre.sqrt_price, o.post.sqrt_price, k.major_swap_threshold_ticks, post_o.v.last_major_swap_timestamp, now)));
                     }
-                } else if large_b + &band <= target {
+                } else if &large_b + &band <= target {
                     if changed {
                         out.push(viol("minor_swap_recorded_as_major", ev.idx, format!("price moved {} -> {} (threshold {} ticks) but the major-swap timestamp changed {} -> {}", o.pre.sqrt_price, o.post.sqrt_price, k.major_swap_threshold_ticks, pre_o.v.last_major_swap_timestamp, post_o.v.last_major_swap_timestamp)));
                     }
                 } else {
                     cov.probe("major_swap_threshold_tolerance_band");
                     let _ = was_set;
+                    // inside the band the documented integer formula decides: "equivalent to the threshold or more", i.e. a
+                    // price exactly at smaller x factor >> 64 counts as a major swap
+                    if large_b == target {
+                        cov.probe("price_moved_exactly_to_the_major_swap_target");
+                        if post_o.v.last_major_swap_timestamp != now {
+                            out.push(viol("major_swap_not_recorded", ev.idx, format!("price moved {} -> {}, exactly the documented target for a threshold of {} ticks (smaller price x factor >> 64), but the major-swap timestamp is {} (now {})", o.pre.sqrt_price, o.post.sqrt_price, k.major_swap_threshold_ticks, post_o.v.last_major_swap_timestamp, now)));
+                        }
+                    }
                 }
                 if out.is_empty() && o.trace.steps.iter().any(|s| s.amount_in > 0) {
                     cov.sample(json!({"ix": o.ix_name, "a_to_b": o.a_to_b, "elapsed_class": class, "constants": format!("{:?}", k), "reference": [r.tick_group_index_reference, r.volatility_reference],
